@@ -1,14 +1,343 @@
 /-
-  JSON fragment (placeholder until the model lands).
+  JSON, the fragment null / bool / integer / string / list / dict.
+
+  Encoder = what ugorji/go/codec v1.3.1 emits with the repo's handle (compact, no
+  whitespace; integers in decimal; string escapes: \" \\ \b \f \n \r \t, \u00XX for the other
+  control characters and for < > &,     for U+2028/U+2029, everything else raw).
+  Floats and binaries are not in the fragment (`encode` answers `none`): the codec prints
+  floats with Go's shortest-decimal algorithm (trusted, and lossy: an integral float of
+  magnitude ≥ 2^53.. comes back as an integer; NaN/±Inf are written as null), and `[]byte` as a
+  base64 string that comes back as a string.
+
+  Decoder: whitespace wherever JSON allows it — like the codec, every byte ≤ 0x20 counts; strings with raw bytes
+  (control characters and bytes ≥ 0x80 are copied as they are, like the codec does) and the
+  escapes \" \\ \/ \' \b \f \n \r \t \uXXXX (non-surrogate); integers `-?(0|[1-9][0-9]*)`.
+  Reported as `unsupported` (outside the fragment, the family then only requires "no panic"):
+  any other number token (fraction, exponent, leading zeros, lone '-', '+'), non-negative
+  integers above MaxUint64 (the codec turns them into floats), \u escapes that are surrogates
+  or have non-hex digits, objects with a repeated key (the codec merges the values).  Everything else that is not in the grammar is `malformed`.
 -/
 import Nexus.Codec.BytesLemmas
+import Nexus.Codec.GoConv
 
 namespace Nexus.Codec.Json
 
 open Nexus.Codec
 
-def encode (_v : CVal) : Option Bytes := none
-def dec (_b : Bytes) : DRes (CVal × Bytes) := .error .unsupported
-def decTop (_b : Bytes) : DRes (List CVal) := .error .unsupported
+/-! ### numbers -/
+
+/-- Decimal digits, least significant first. -/
+def digitsRev : Nat → Nat → Bytes
+  | 0, _ => []
+  | f + 1, n => if n < 10 then [UInt8.ofNat (48 + n)] else UInt8.ofNat (48 + n % 10) :: digitsRev f (n / 10)
+
+def natDigits (n : Nat) : Bytes := (digitsRev (n + 1) n).reverse
+
+def isDigit (b : UInt8) : Bool := 48 ≤ b.toNat && b.toNat ≤ 57
+
+/-- Value of a most-significant-first digit string. -/
+def decNat (ds : Bytes) : Nat := ds.foldl (fun a d => a * 10 + (d.toNat - 48)) 0
+
+/-- Bytes that continue a number token: digits + - . e E -/
+def isNumChar (b : UInt8) : Bool :=
+  isDigit b || b.toNat == 43 || b.toNat == 45 || b.toNat == 46 || b.toNat == 101 || b.toNat == 69
+
+def encInt (i : Int) : Bytes :=
+  if i < 0 then UInt8.ofNat 45 :: natDigits (-i).toNat else natDigits i.toNat
+
+/-- A plain digit string: non-empty, digits only, no superfluous leading zero. -/
+def plainDigits (ds : Bytes) : Bool := !ds.isEmpty && ds.all isDigit && natDigits (decNat ds) == ds
+
+/-- Interpret a number token the way the codec's naked decode does. -/
+def decNumTok (tok : Bytes) : DRes CVal :=
+  match tok with
+  | [] => .error .malformed                    -- "decode number from empty string"
+  | b :: ds =>
+    if b.toNat == 45 then
+      if plainDigits ds then
+        (if decNat ds = 0 then .error .unsupported       -- "-0": an int64 zero, which the head check
+                                                         -- tells from the uint64 zero of "0"
+         else if decNat ds ≤ 9223372036854775808 then .ok (.int (-(decNat ds : Int)))
+         else if decNat ds < 18446744073709551616 then .error .malformed  -- fits uint64, then ParseInt overflows
+         else .error .unsupported)                       -- beyond uint64: parsed as a float
+      else .error .unsupported
+    else if plainDigits (b :: ds) then
+      (if decNat (b :: ds) < 18446744073709551616 then .ok (.int (decNat (b :: ds))) else .error .unsupported)
+    else .error .unsupported
+
+/-! ### strings -/
+
+def hexDigit (n : Nat) : UInt8 := if n < 10 then UInt8.ofNat (48 + n) else UInt8.ofNat (87 + n)
+
+def hexVal (b : UInt8) : Option Nat :=
+  let c := b.toNat
+  if 48 ≤ c ∧ c ≤ 57 then some (c - 48)
+  else if 97 ≤ c ∧ c ≤ 102 then some (c - 87)
+  else if 65 ≤ c ∧ c ≤ 70 then some (c - 55)
+  else none
+
+/-- How the codec writes one byte of a string. -/
+def escByte (b : UInt8) : Bytes :=
+  let c := b.toNat
+  if c = 0x22 then [0x5c, 0x22]
+  else if c = 0x5c then [0x5c, 0x5c]
+  else if c = 0x08 then [0x5c, 0x62]
+  else if c = 0x0c then [0x5c, 0x66]
+  else if c = 0x0a then [0x5c, 0x6e]
+  else if c = 0x0d then [0x5c, 0x72]
+  else if c = 0x09 then [0x5c, 0x74]
+  else if c < 0x20 ∨ c = 0x26 ∨ c = 0x3c ∨ c = 0x3e then
+    [0x5c, 0x75, 0x30, 0x30, hexDigit (c / 16), hexDigit (c % 16)]
+  else [b]
+
+def encStrBody : Bytes → Bytes
+  | [] => []
+  | [b] => escByte b
+  | [b, c] => escByte b ++ escByte c
+  | b :: c :: d :: r' =>
+    if b.toNat = 0xe2 ∧ c.toNat = 0x80 ∧ d.toNat = 0xa8 then
+      [0x5c, 0x75, 0x32, 0x30, 0x32, 0x38] ++ encStrBody r'
+    else if b.toNat = 0xe2 ∧ c.toNat = 0x80 ∧ d.toNat = 0xa9 then
+      [0x5c, 0x75, 0x32, 0x30, 0x32, 0x39] ++ encStrBody r'
+    else escByte b ++ encStrBody (c :: d :: r')
+
+def encStr (s : Bytes) : Bytes := 0x22 :: (encStrBody s ++ [0x22])
+
+inductive Step where
+  | close (rest : Bytes)
+  | chunk (out : Bytes) (rest : Bytes)
+  | err (e : DErr)
+
+/-- One unit of a string body: the closing quote, an escape sequence, or a raw byte. -/
+def step : Bytes → Step
+  | [] => .err .malformed
+  | b :: r =>
+    if b.toNat = 0x22 then .close r
+    else if b.toNat = 0x5c then
+      match r with
+      | [] => .err .malformed
+      | c :: r' =>
+        let k := c.toNat
+        if k = 0x22 then .chunk [0x22] r'
+        else if k = 0x5c then .chunk [0x5c] r'
+        else if k = 0x2f then .chunk [0x2f] r'
+        else if k = 0x27 then .chunk [0x27] r'
+        else if k = 0x62 then .chunk [0x08] r'
+        else if k = 0x66 then .chunk [0x0c] r'
+        else if k = 0x6e then .chunk [0x0a] r'
+        else if k = 0x72 then .chunk [0x0d] r'
+        else if k = 0x74 then .chunk [0x09] r'
+        else if k = 0x75 then
+          match r' with
+          | h1 :: h2 :: h3 :: h4 :: r'' =>
+            match hexVal h1, hexVal h2, hexVal h3, hexVal h4 with
+            | some a, some b', some c', some d =>
+              let cp := ((a * 16 + b') * 16 + c') * 16 + d
+              if 0xD800 ≤ cp ∧ cp < 0xE000 then .err .unsupported
+              else .chunk (utf8Enc cp) r''
+            | _, _, _, _ => .err .unsupported
+          | _ => .err .malformed
+        else .err .malformed                  -- "unsupported escaped value"
+    else .chunk [b] r
+
+/-- String body after the opening quote (`fuel` > number of units). -/
+def strBody : Nat → Bytes → DRes (Bytes × Bytes)
+  | 0, _ => .error .malformed
+  | f + 1, bs =>
+    match step bs with
+    | .close r => .ok ([], r)
+    | .err e => .error e
+    | .chunk o r =>
+      match strBody f r with
+      | .ok (s, r') => .ok (o ++ s, r')
+      | .error e => .error e
+
+/-! ### values -/
+
+/-- The codec skips every byte ≤ 0x20 between tokens (not only JSON's four whitespace characters). -/
+def isWs (b : UInt8) : Bool := b.toNat ≤ 0x20
+
+def skipWs : Bytes → Bytes
+  | [] => []
+  | b :: r => if isWs b then skipWs r else b :: r
+
+mutual
+  def enc : CVal → Bytes
+    | .null => [0x6e, 0x75, 0x6c, 0x6c]
+    | .bool true => [0x74, 0x72, 0x75, 0x65]
+    | .bool false => [0x66, 0x61, 0x6c, 0x73, 0x65]
+    | .int i => encInt i
+    | .float _ => [0x6e, 0x75, 0x6c, 0x6c]     -- not in the fragment (`encode` refuses)
+    | .str s => encStr s
+    | .bin _ => [0x6e, 0x75, 0x6c, 0x6c]       -- not in the fragment
+    | .list [] => [0x5b, 0x5d]
+    | .list (v :: vs) => 0x5b :: (enc v ++ encTail vs)
+    | .dict [] => [0x7b, 0x7d]
+    | .dict ((k, v) :: r) => 0x7b :: (encStr k ++ (0x3a :: (enc v ++ encMembers r)))
+  /-- `,v,v...]` -/
+  def encTail : List CVal → Bytes
+    | [] => [0x5d]
+    | v :: vs => 0x2c :: (enc v ++ encTail vs)
+  /-- `,"k":v,...}` -/
+  def encMembers : List (Bytes × CVal) → Bytes
+    | [] => [0x7d]
+    | (k, v) :: r => 0x2c :: (encStr k ++ (0x3a :: (enc v ++ encMembers r)))
+end
+
+mutual
+  /-- In the fragment: no float, no binary, integers in Go's range. -/
+  def okB : CVal → Bool
+    | .null => true
+    | .bool _ => true
+    | .int i => decide (-(9223372036854775808 : Int) ≤ i) && decide (i < (18446744073709551616 : Int))
+    | .float _ => false
+    | .str _ => true
+    | .bin _ => false
+    | .list l => okListB l
+    | .dict d => noDupFrom [] d && okDictB d
+  def okListB : List CVal → Bool
+    | [] => true
+    | v :: vs => okB v && okListB vs
+  def okDictB : List (Bytes × CVal) → Bool
+    | [] => true
+    | (_, v) :: r => okB v && okDictB r
+end
+
+/-- After a value: `, v` repeated, then `]`.  `lf` bounds the number of elements. -/
+def decTail (f : Bytes → DRes (CVal × Bytes)) : Nat → Bytes → DRes (List CVal × Bytes)
+  | 0, _ => .error .malformed
+  | lf + 1, bs =>
+    match skipWs bs with
+    | [] => .error .malformed
+    | c :: r =>
+      if c.toNat = 0x5d then .ok ([], r)
+      else if c.toNat = 0x2c then
+        match f r with
+        | .error e => .error e
+        | .ok (v, r') =>
+          match decTail f lf r' with
+          | .ok (vs, r'') => .ok (v :: vs, r'')
+          | .error e => .error e
+      else .error .malformed
+
+/-- `"key" :` with surrounding whitespace; returns the key and what follows the colon. -/
+def decMemberKey (bs : Bytes) : DRes (Bytes × Bytes) :=
+  match skipWs bs with
+  | [] => .error .malformed
+  | q :: r =>
+    if q.toNat = 0x22 then
+      match strBody (r.length + 1) r with
+      | .error e => .error e
+      | .ok (k, r') =>
+        match skipWs r' with
+        | [] => .error .malformed
+        | c :: r'' => if c.toNat = 0x3a then .ok (k, r'') else .error .malformed
+    else .error .unsupported   -- the codec tolerates some non-string keys (a missing key is "", ...)
+
+/-- One member; a key already seen in this object is outside the model (the codec merges). -/
+def decMember (f : Bytes → DRes (CVal × Bytes)) (seen : List Bytes) (bs : Bytes) :
+    DRes ((Bytes × CVal) × Bytes) :=
+  match decMemberKey bs with
+  | .error e => .error e
+  | .ok (k, r) =>
+    if seen.contains k then .error .unsupported
+    else
+      match f r with
+      | .ok (v, r') => .ok ((k, v), r')
+      | .error e => .error e
+
+def decMembers (f : Bytes → DRes (CVal × Bytes)) : Nat → List Bytes → Bytes → DRes (List (Bytes × CVal) × Bytes)
+  | 0, _, _ => .error .malformed
+  | lf + 1, seen, bs =>
+    match skipWs bs with
+    | [] => .error .malformed
+    | c :: r =>
+      if c.toNat = 0x7d then .ok ([], r)
+      else if c.toNat = 0x2c then
+        match decMember f seen r with
+        | .error e => .error e
+        | .ok (kv, r') =>
+          match decMembers f lf (kv.1 :: seen) r' with
+          | .ok (ps, r'') => .ok (kv :: ps, r'')
+          | .error e => .error e
+      else .error .malformed
+
+/-- A literal's remaining letters. -/
+def lit (w : Bytes) (v : CVal) (r : Bytes) : DRes (CVal × Bytes) :=
+  if r.length < w.length then .error .malformed
+  else if r.take w.length == w then .ok (v, r.drop w.length)
+  else .error .malformed
+
+def decV : Nat → Bytes → DRes (CVal × Bytes)
+  | 0, _ => .error .malformed
+  | fuel + 1, bs =>
+    match skipWs bs with
+    | [] => .error .malformed
+    | b :: r =>
+      let c := b.toNat
+      if c = 0x5b then
+        match skipWs r with
+        | [] => .error .malformed
+        | d :: r' =>
+          if d.toNat = 0x5d then .ok (.list [], r')
+          else
+            match decV fuel (d :: r') with
+            | .error e => .error e
+            | .ok (v, r'') =>
+              match decTail (decV fuel) r''.length.succ r'' with
+              | .ok (vs, r3) => .ok (.list (v :: vs), r3)
+              | .error e => .error e
+      else if c = 0x7b then
+        match skipWs r with
+        | [] => .error .malformed
+        | d :: r' =>
+          if d.toNat = 0x7d then .ok (.dict [], r')
+          else
+            match decMember (decV fuel) [] (d :: r') with
+            | .error e => .error e
+            | .ok (kv, r'') =>
+              match decMembers (decV fuel) r''.length.succ [kv.1] r'' with
+              | .ok (ps, r3) => .ok (.dict (kv :: ps), r3)
+              | .error e => .error e
+      else if c = 0x22 then
+        match strBody (r.length + 1) r with
+        | .ok (s, r') => .ok (.str s, r')
+        | .error e => .error e
+      else if c = 0x6e then lit [0x75, 0x6c, 0x6c] .null r
+      else if c = 0x74 then lit [0x72, 0x75, 0x65] (.bool true) r
+      else if c = 0x66 then lit [0x61, 0x6c, 0x73, 0x65] (.bool false) r
+      else
+        let tok := (b :: r).takeWhile isNumChar
+        match decNumTok tok with
+        | .ok v => .ok (v, (b :: r).dropWhile isNumChar)
+        | .error e => .error e
+
+def dec (bs : Bytes) : DRes (CVal × Bytes) := decV (bs.length + 1) bs
+
+def encode (v : CVal) : Option Bytes := if okB v then some (enc v) else none
+
+/-- `codec.Decode(&v)` with `v []any`: array → items; null → empty; OBJECT → keys and values
+    interleaved (keys as strings); anything else is the codec's "expect map/array" error. -/
+def decTop (bs : Bytes) : DRes (List CVal) :=
+  match skipWs bs with
+  | [] => .error .malformed
+  | b :: r =>
+    if b.toNat = 0x5b then
+      match dec (b :: r) with
+      | .ok (.list l, _) => .ok l
+      | .ok _ => .error .malformed
+      | .error e => .error e
+    else if b.toNat = 0x7b then
+      -- the codec reads the members one after the other without map semantics and without
+      -- insisting on string keys (`{1:"a"}` gives [1, "a"]): only well-formed objects with
+      -- distinct string keys are modelled
+      match dec (b :: r) with
+      | .ok (.dict d, _) => .ok (d.foldr (fun kv acc => .str kv.1 :: kv.2 :: acc) [])
+      | _ => .error .unsupported
+    else if b.toNat = 0x6e then
+      match lit [0x75, 0x6c, 0x6c] .null r with
+      | .ok _ => .ok []
+      | .error e => .error e
+    else .error .malformed
 
 end Nexus.Codec.Json
